@@ -21,8 +21,8 @@
 (* core/headerchain_validation.go VerifyUncles; params                     *)
 (* CalculateCoinbaseValueWithLockup.                                       *)
 (*                                                                         *)
-(* The ledger is a pure function of the chain: LedgerAt(b) replays the     *)
-(* chain of b operationally (in the order the code works); the invariants  *)
+(* The ledger is a pure function of the chain: led[b] is the replay of the  *)
+(* chain of b (operationally, in the order the code works); the invariants *)
 (* state the property declaratively on every block of the tree, so reorgs  *)
 (* across unlock heights are covered by construction.                      *)
 (***************************************************************************)
